@@ -33,6 +33,8 @@ static void cmpvec(const std::string& sig, int d, const SU_vector& got, const Ma
   if ((int)got.Dim() != d || !(e <= tol)) violation(sig + ":d=" + std::to_string(d), "{\"ctx\":" + ctx + ",\"got\":" + jarr(g) + ",\"want\":" + jarr(want) + ",\"err\":" + jnum(e) + ",\"tol\":" + jnum(tol) + "}");
 }
 
+static std::vector<double> B_proj_scaled(int d, const Mat& m, double sc) { std::vector<double> v = ref::basis(d).proj(m); for (auto& x : v) x *= sc; return v; }
+
 int main(int argc, char** argv) {
   Args ar = parse(argc, argv); quiet_gsl();
   bool th = ar.thorough();
@@ -53,6 +55,14 @@ int main(int argc, char** argv) {
         SU_vector r = v.Rotate((unsigned)i, (unsigned)j, t, de);
         std::string ctx = J().i("i", i).i("j", j).num("theta", t).num("delta", de).arr("A", al.vecs[a]).done();
         cmpvec("Rotate(i,j):not-RdaggerAR", d, r, Rd * al.mats[a] * R, 64 * d * ref::EPS * maxabs(al.vecs[a]), ctx);
+        if (a + 3 >= al.vecs.size() && (&de == &TT[0] || &de == &TT[2 % TT.size()])) {   // probes: the rotated vector is a temporary / the result lands in targets of every kind; huge and tiny magnitudes (the map is linear)
+          Mat want = Rd * al.mats[a] * R; double tl = 64 * d * ref::EPS * maxabs(al.vecs[a]); count("evaluations");
+          { SU_vector r2 = SU_vector(v).Rotate((unsigned)i, (unsigned)j, t, de); cmpvec("Rotate(i,j):temporary-operand", d, r2, want, tl, ctx); }
+          { SU_vector c = v; SU_vector r2 = std::move(c).Rotate((unsigned)i, (unsigned)j, t, de); cmpvec("Rotate(i,j):moved-operand", d, r2, want, tl, ctx); }
+          { SU_vector tg(d == 2 ? 3 : 2); tg = v.Rotate((unsigned)i, (unsigned)j, t, de); cmpvec("Rotate(i,j):assigned-to-other-size", d, tg, want, tl, ctx); SU_vector ts(d); ts = SU_vector(v).Rotate((unsigned)i, (unsigned)j, t, de); cmpvec("Rotate(i,j):temporary-assigned-to-same-size", d, ts, want, tl, ctx); }
+          for (double sc : {1e150, 1e-150}) { SU_vector big = mkvec(d, scaled(al.vecs[a], sc)); SU_vector rb = big.Rotate((unsigned)i, (unsigned)j, t, de); std::vector<double> g = comps(rb), wv = B_proj_scaled(d, want, sc); double e = maxdiff(g, wv);
+            if (!(e <= tl * sc)) violation("Rotate(i,j):not-homogeneous:d=" + std::to_string(d), "{\"ctx\":" + ctx + ",\"scale\":" + jnum(sc) + ",\"err\":" + jnum(e) + "}"); }
+        }
       }
     }
   }
@@ -107,6 +117,14 @@ int main(int argc, char** argv) {
         SU_vector r1 = v.Rotate(Ug.get()); cmpvec("Rotate(U):not-B1", d, r1, wantB1, tol, ctx);
         SU_vector r2 = v.UTransform(Ug.get()); cmpvec("UTransform(U):not-B1", d, r2, wantB1, tol, ctx);
         SU_vector r3 = v.UDaggerTransform(Ug.get()); cmpvec("UDaggerTransform(U):not-B0", d, r3, wantB0, tol, ctx);
+        if (a + 3 >= al.vecs.size()) {   // the transformed vector is a temporary; results assigned into targets of another size
+          { SU_vector q = SU_vector(v).Rotate(Ug.get()); cmpvec("Rotate(U):temporary-operand", d, q, wantB1, tol, ctx); }
+          { SU_vector q = SU_vector(v).UTransform(Ug.get()); cmpvec("UTransform(U):temporary-operand", d, q, wantB1, tol, ctx); }
+          { SU_vector q = SU_vector(v).UDaggerTransform(Ug.get()); cmpvec("UDaggerTransform(U):temporary-operand", d, q, wantB0, tol, ctx); }
+          { SU_vector tg(d == 2 ? 3 : 2); tg = v.UTransform(Ug.get()); cmpvec("UTransform(U):assigned-to-other-size", d, tg, wantB1, tol, ctx); SU_vector te; te = SU_vector(v).UDaggerTransform(Ug.get()); cmpvec("UDaggerTransform(U):temporary-assigned-to-empty", d, te, wantB0, tol, ctx); }
+          { SU_vector q = mkvec(d, al.vecs[a]); SU_vector tmp = SU_vector(q); tmp.RotateToB1(par); cmpvec("RotateToB1:on-a-copy", d, tmp, wantB1, tol, ctx); }
+          count("evaluations");
+        }
         if (a + 3 >= al.vecs.size()) {   // the same U as a strided view inside a larger matrix
           gsl_matrix_complex* big = gsl_matrix_complex_alloc(8, 9); gsl_matrix_complex_set_all(big, gsl_complex_rect(3.5, 1.25));
           gsl_matrix_complex_view vw = gsl_matrix_complex_submatrix(big, 2, 1, d, d); gsl_matrix_complex_memcpy(&vw.matrix, Ug.get());
